@@ -64,7 +64,8 @@ EXPECTED_PROBES = {
     'C14': ['pipeline', 'pipeline_k>=3', 'features', 'no_features', 'empty_cluster_id',
             'few_channels_on_probe', 'factor', 'second_export_from_same_session',
             're_export_into_same_directory', 'batch_boundary_size',
-            'cluster_waveforms_recomputed_from_ground_truth'],
+            'cluster_waveforms_recomputed_from_ground_truth',
+            'spike_depths_from_ground_truth_features'],
 }
 
 TSV_NAMES = ['cluster_Amplitude.tsv', 'cluster_ContamPct.tsv', 'cluster_KSLabel.tsv']
@@ -168,6 +169,9 @@ def gen(rng, prop, tier):
             ops[-1]['stale_output'] = rng.choice(['templates', 'more'])
         if rng.random() < 0.2:
             ops.append({'op': 'merge_again'})   # the same Merger instance run a second time
+        if prop in ('C11', 'C12') and rng.random() < 0.15:
+            ops.append({'op': 'recurate_probe_and_merge', 'probe': rng.randrange(k),
+                        'ops': world.gen_curation_ops(rng, rng.randint(1, 2))})
         if prop in ('C13', 'C14'):
             cfg['knobs']['n_closest_channels'] = rng.choice([2, 4, 12])
             ops.append({'op': 'convert', 'label': rng.choice(['', 'probe00']),
@@ -180,7 +184,8 @@ def gen(rng, prop, tier):
     p['amps'] = True
     p['feature_rows'] = False
     p['tfeature_rows'] = False
-    d['dtypes']['ids'] = rng.choice(['uint32', 'int32', 'int64'])
+    d['dtypes']['ids'] = 'uint16' if (d['nt'] >= 130 and rng.random() < 0.6) else \
+        rng.choice(['uint32', 'int32', 'int64'])
     d['colvec'] = [f for f in d['colvec'] if f != 'chmap']
     if rng.random() < 0.5:
         d['curation'] = world.gen_curation_ops(rng, rng.randint(1, 3))
@@ -930,6 +935,13 @@ def check_export_values(ctx, model, out, op, orig_maps, src_gt=None):
         ctx.probe('features')
         F = np.asarray(model.sparse_features.data)  # (n, nloc, npcs)
         cols = np.asarray(model.sparse_features.cols).astype(np.int64)
+        if src_gt is not None and src_gt[1].pc_features is not None \
+                and src_gt[1].feat_rows is None:
+            # source written by the dataset world: the feature store as WRITTEN (n, npcs, nloc), so
+            # that the loader's own orientation of the array is not trusted
+            F = np.transpose(np.asarray(src_gt[1].pc_features), (0, 2, 1))
+            cols = np.asarray(src_gt[1].pc_ind).astype(np.int64)
+            ctx.probe('spike_depths_from_ground_truth_features')
         fpos = np.maximum(F[:, :, 0], 0).astype(np.float64) ** 2     # (ns, nloc)
         ych = pos[:, 1][cols[st]]                                      # (ns, nloc)
         den = fpos.sum(axis=1)
@@ -1081,6 +1093,14 @@ def run_ops(plan, ctx, cfg):
                     np.save(out / 'spike_clusters.npy', np.zeros(3, dtype=np.int32))
                 ctx.fault('killed_earlier_merge_left_files')
                 ctx.probe('output_directory_holds_stale_files')
+            if k == 'merge' and op.get('earlier_merge') and len(probes) >= 2:
+                # history: the same output directory already holds a complete merge of a
+                # DIFFERENT probe set (all probes but the last)
+                m0 = ctx.real('merge', Merger([p.dir for p in probes[:-1]], out).merge,
+                              owners=('C11', 'C12'))
+                m0.close()
+                ctx.probe('output_directory_holds_an_earlier_merge_of_other_probes')
+                before = [world.snapshot(p.dir) for p in probes]
             if k == 'merge':
                 merger = ctx.real('Merger', Merger, [p.dir for p in probes], out,
                                   owners=('C11', 'C12'))
@@ -1116,6 +1136,49 @@ def run_ops(plan, ctx, cfg):
                 ctx.probe('pipeline')
                 if len(probes) >= 3:
                     ctx.probe('pipeline_k>=3')
+        elif k == 'recurate_probe_and_merge':
+            if probes is None or merger is None:
+                continue
+            # history: one input is curated again (its assignment file rewritten at the same path)
+            # and the probes are merged once more, in the same process, into another directory
+            pj = probes[op['probe'] % len(probes)]
+            sc_new = world.apply_curation(pj.g.sclusters, pj.g.stemplates, op['ops'])
+            fname = 'spike_clusters.npy'
+            old_arr = np.load(pj.dir / fname)
+            np.save(pj.dir / fname, sc_new.astype(old_arr.dtype).reshape(old_arr.shape))
+            pj.g.sclusters = sc_new
+            # (the probe's metadata files are kept consistent: no row for an id beyond its new
+            # highest cluster id)
+            top = int(sc_new.max())
+            for name_, (field_, vals_) in list(pj.tsv.items()):
+                vals_ = {c: v for c, v in vals_.items() if c <= top}
+                if not vals_:
+                    vals_ = {top: 'good' if field_ == 'KSLabel' else 1.5}
+                with open(pj.dir / name_, 'w', newline='') as f_:
+                    wr_ = csv.writer(f_, delimiter='\t')
+                    wr_.writerow(['cluster_id', field_])
+                    for c in sorted(vals_):
+                        wr_.writerow([c, vals_[c]])
+                pj.tsv[name_] = (field_, vals_)
+            pj.tsv_gap_ids = [c for c in pj.tsv_gap_ids if c <= top
+                              and c not in set(int(x) for x in sc_new)]
+            if model is not None:
+                model.close()
+            out = root / 'merged2'
+            before = [world.snapshot(p.dir) for p in probes]
+            merger = ctx.real('Merger', Merger, [p.dir for p in probes], out, owners=('C11', 'C12'))
+            model = ctx.real('merge', merger.merge, owners=('C11', 'C12'))
+            models.append(model)
+            ctx.op(k)
+            ctx.probe('input_rewritten_between_two_merges')
+            ctx.ev(step, k, sorted(world.snapshot(out).items()))
+            offs = check_merge(ctx, probes, out, model)
+            if prop == 'C12':
+                if offs is None:
+                    ctx.skipped['blocked-by-C11-clause'] += 1
+                    return
+                check_merge_structure(ctx, probes, out, model, offs)
+            src_dir = out
         elif k == 'load':
             if src_dir is None:
                 continue
